@@ -127,7 +127,9 @@ class Workload:
         self.base_versions = list(prog.versions)
         c = ctl_db.Case(env, prog, flags, label + ":clean")
         c.snap_dir = tempfile.mkdtemp(prefix="snaps-", dir=env.base)
-        res, _, n = c.run(0)
+        res, _, n = c.run(0, fault_k=10 ** 9, fault_mode="stmt")     # never fires: counts the statements
+        c.steps[-1] = ("run", 0, None, None, c.steps[-1][4], None)
+        self.nstmts = c.last_fault_n or 150
         self.clean = c
         self.ncommits = n
         self.snaps = list(c.last_snaps)
@@ -276,7 +278,7 @@ def run(ctx):
         w0 = ctl_db.guarded(ctx, "corpus", lambda: Workload(ctx, env, flags, corpus_program(small=not thorough), "corpus"))
         if w0 is not None:
             workloads.append(w0)
-        for i in range(ctx.n(2, 6)):
+        for i in range(ctx.n(2, 4)):
             w = ctl_db.guarded(ctx, f"gen{i}", lambda i=i: Workload(ctx, env, flags, ctl_db.gen_program(rng, ns="gc22g"), f"gen{i}"))
             if w is not None:
                 workloads.append(w)
@@ -292,7 +294,11 @@ def run(ctx):
                 ctl_db.guarded(ctx, f"{w.label}:fault@{k}", lambda k=k: fault_case(ctx, w, k, "commit", cases))
             # statement-level faults: every statement in the thorough tier, a sample otherwise
             nst = 0
-            stmt_ks = list(range(1, 400)) if (thorough and wi == 0) else sorted(rng.sample(range(1, 160), (30 if thorough else 6) if wi == 0 else (10 if thorough else 2)))
+            # (the second half of a run is the resolve phase: record_call_node with its nested record_value calls)
+            lo = max(1, w.nstmts // 2)
+            want = (30 if thorough else 6) if wi == 0 else (10 if thorough else 1)
+            stmt_ks = list(range(1, w.nstmts + 1)) if (thorough and wi == 0) else \
+                sorted(rng.sample(range(lo, w.nstmts + 1), min(want, w.nstmts + 1 - lo)))
             for k in stmt_ks:
                 if not ctl_db.guarded(ctx, f"{w.label}:fault-stmt@{k}", lambda k=k: fault_case(ctx, w, k, "stmt", cases), True):
                     break
